@@ -287,11 +287,16 @@ theorem reorg_best_allowed {D : Store} {pre old new : List Block} {start best to
   · exact ⟨N, us1, us2, h1, Or.inl hb⟩
   · exact ⟨N, us1, us2, h1, Or.inr hb⟩
 
-/-- **Replay converges, reorganisation, marker written.** Once the marker is durable, the restart alone brings
-the stores to those of the run without the crash (`reorg_crash_recover`, second case, gives
-`N.D = reorgFinal D …`, which is `applyUnits (reorgUnits …) D` by `reorg_full`); every block of both branches
-is stored, so feeding them again changes nothing (`feed_stored`). -/
-theorem reorg_replay_converges {D : Store} {pre old new : List Block} {start best top : Block}
+/-- **Replay converges, reorganisation — partial.** Full statement (what the property asks): for *every*
+`k ≤ (reorgUnits …).length`, restarting on `crash (reorgUnits …) k D` and feeding the blocks of the arrival
+again ends in `applyUnits (reorgUnits …) D`. The pinned code violates it for `k ≤ (rollforwardUnits new).length`
+(marker not yet written): the restart is coherent at the old tip, the triggering block is stored, feeding it
+again is a no-op (`feed_stored`) — witness 1 in `Ex` below, reproduced on the real code (finding
+`C06-reorg-not-resumed-before-marker`). Proved here under exactly the guard that excludes it: once the marker
+is durable, the restart alone brings the stores to those of the run without the crash
+(`reorg_crash_recover`, second case, gives `N.D = reorgFinal D …`, which is `applyUnits (reorgUnits …) D` by
+`reorg_full`); every block of both branches is stored, so feeding them again changes nothing (`feed_stored`). -/
+theorem reorg_replay_converges_partial {D : Store} {pre old new : List Block} {start best top : Block}
     (F : Fork D pre old new start best top) (k : Nat) (hk : k ≤ (reorgUnits start best top old new).length)
     (hm : (rollforwardUnits new).length < k) :
     ∃ N us1 us2, restart (crash (reorgUnits start best top old new) k D) = .ok (N, us1, us2) ∧
@@ -464,14 +469,14 @@ def b2 : Block := ⟨4, 3, 2, 4, [12]⟩
 /-- genesis, `a1` connected, `b1` and `b2` stored as side blocks -/
 def D : Store := applyOps ((sideUnit b1).ops ++ (sideUnit b2).ops) (applyUnits (connectUnits a1) (genesisStore g))
 
-theorem invG : Inv (genesisStore g) [g] g := inv_genesis g rfl rfl
+private theorem invG : Inv (genesisStore g) [g] g := inv_genesis g rfl rfl
 
-theorem invA : Inv (applyUnits (connectUnits a1) (genesisStore g)) [g, a1] a1 :=
+private theorem invA : Inv (applyUnits (connectUnits a1) (genesisStore g)) [g, a1] a1 :=
   connect_full_inv invG rfl rfl (by simp [g, a1]) (by simp [a1]) (by
     intro t ht; simp [a1] at ht; subst ht
     simp [getTx, genesisStore, applyOps, W.apply, W.key, W.val])
 
-theorem invD : Inv D [g, a1] a1 := by
+private theorem invD : Inv D [g, a1] a1 := by
   have h1 := inv_side (b := b1) invA (by simp [g, a1, b1])
   have h2 := inv_side (b := b2) h1 (by simp [g, a1, b2])
   simpa [D, applyOps_append] using h2
@@ -483,7 +488,7 @@ example : ∃ N, restart (crash (connectUnits a1) 2 (genesisStore g)) = .ok (N, 
   ⟨N, h1, by rcases h4 with ⟨_, h, _⟩ | ⟨h, _⟩; exact h; exact absurd h (by decide)⟩
 
 /-- A reorganisation of depth 1 with a shared transaction: `Fork` holds (test on sample values). -/
-theorem fork : Fork D [g] [a1] [b2, b1] g a1 b2 where
+private theorem fork : Fork D [g] [a1] [b2, b1] g a1 b2 where
   inv := invD
   preLast := rfl
   oldHead := rfl
@@ -524,7 +529,7 @@ harness reproduces both on the real code, see notes/C06.md).
    When the crash happens after the block that triggers a reorganisation was stored as a side block and
    before the marker is written, the restart is coherent at the old tip (`reorg_crash_recover`, first case),
    but the triggering block is "already connected" when it is fed again (`feed_stored`): nothing happens, the
-   node stays on the shorter branch until another block of that branch arrives. `reorg_replay_converges`
+   node stays on the shorter branch until another block of that branch arrives. `reorg_replay_converges_partial`
    therefore carries the guard `(rollforwardUnits new).length < k`.
 
 2. *A partially flushed recovery bulk can make the node unbootable* (finding
